@@ -141,7 +141,7 @@ Definition hw_cond (lw : nat) (qual : bool) (on : option expr) (l r : row) : boo
   end.
 Definition is_some {X} (o : option X) : bool := match o with Some _ => true | None => false end.
 
-Inductive hout := HRows (t : table) | HPanic | HUnmod | HBlack.
+Inductive hout := HRows (t : table) | HPanic | HUnmod | HBlack | HErr.
 
 (* the predicates the path really evaluates (for the Panic / not-modelled status) *)
 Definition hw_status (lw : nat) (qual : bool) (on : option expr) (w : option expr) (joined : table) (L R : table) : Z :=
